@@ -74,12 +74,23 @@ Fixpoint split_close (evs : list event) : option (list event * list (bool * bool
               end
   end.
 
-Definition device_silent e := match e with EPlayRaise | ECloseRet _ => true | _ => false end.
+Definition device_silent e := match e with EPlayRaise | ECloseRet _ | EHalt _ => true | _ => false end.
+
+(* thread.stop() was called on player i by the script before the first close *)
+Fixpoint stopped_by_script (sc : list cmd) (i : nat) : bool :=
+  match sc with
+  | [] => false
+  | CClose :: _ => false
+  | CStop t :: r => Nat.eqb t i || stopped_by_script r i
+  | _ :: r => stopped_by_script r i
+  end.
 
 (* the state of the device when the first close returns, and afterwards:
    every stream that was opened has been closed, terminate was called exactly once, every player
-   that was not told to halt has delivered all its chunks, and the device is never touched again *)
-Definition close_ok (expected : list (list chunk)) (evs : list event) : bool :=
+   that was not told to halt has delivered all its chunks - with wait = true that is every player
+   the script did not stop itself ("after waiting for all audio") - and the device is never touched
+   again *)
+Definition close_ok (wait : bool) (sc : list cmd) (expected : list (list chunk)) (evs : list event) : bool :=
   match split_close evs with
   | None => true
   | Some (before, flags, after) =>
@@ -88,11 +99,22 @@ Definition close_ok (expected : list (list chunk)) (evs : list event) : bool :=
       && Nat.eqb (count_ev is_terminate before) 1
       && forallb device_silent after
       && forallb (fun i => match nth_error flags i, nth_error expected i with
-                           | Some (_, false), Some a => chunks_eqb (writes_of i before) a
-                           | Some (_, true), Some _ => true
+                           | Some (_, h), Some a =>
+                               if negb h || (wait && negb (stopped_by_script sc i))
+                               then chunks_eqb (writes_of i before) a else true
                            | _, _ => false
                            end) (seq 0 (length expected))
   end.
+
+(* "promptly": once thread.halting has been set, at most one more chunk reaches the device *)
+Fixpoint after_halt (i : nat) (evs : list event) : list event :=
+  match evs with
+  | [] => []
+  | EHalt p :: r => if Nat.eqb p i then r else after_halt i r
+  | _ :: r => after_halt i r
+  end.
+Definition halt_prompt (np : nat) (evs : list event) : bool :=
+  forallb (fun i => length (writes_of i (after_halt i evs)) <=? 1) (seq 0 np).
 
 (* "no player thread is alive" whenever a close returns *)
 Definition nobody_alive (evs : list event) : bool :=
@@ -140,3 +162,13 @@ Fixpoint valid_sched (s : state) (sched : list nat) : Prop :=
   | [] => True
   | t :: r => match step s t with Some s' => valid_sched s' r | None => False end
   end.
+
+(* ---- which audio the players carry: the i-th player plays the chunks of the i-th play command
+   issued before the first close (later play commands raise) *)
+Definition closing (s : state) : bool :=
+  sfinished s || match smpc s with MCloseAcqH => true | _ => false end.
+Definition pending_audio (s : state) : list (list chunk) :=
+  if closing s then []
+  else match smpc s with MPlayAcq a => [a] | _ => [] end ++ expected_audio (sscript s).
+Definition audio_link (sc0 : list cmd) (s : state) : Prop :=
+  expected_audio sc0 = map paudio (splayers s) ++ pending_audio s.
